@@ -37,6 +37,17 @@ static int cmp_key(const void *a, const void *b, void *priv)
     return (int)*(const unsigned char *)a - (int)*(const unsigned char *)b;
 }
 static unsigned long swap_calls;
+static int poisoned_scratch;
+static void own_swap(void *a, void *b, void *t, size_t len)
+{
+    unsigned char tmp[32];
+    swap_calls++;
+    if (!in_array(a) || !in_array(b)) fail("swap callback received a pointer outside the array");
+    if (t != (void *)g_scratch) fail("swap callback received a scratch pointer that is not the one the caller passed");
+    if (len != g_sz || len > sizeof tmp) fail("swap callback received length %zu for %zu-byte elements", len, g_sz);
+    if (failed) return;
+    memcpy(tmp, a, len); memcpy(a, b, len); memcpy(b, tmp, len);       /* this callback ignores the scratch space, as the documentation allows */
+}
 static void chk_swap(void *a, void *b, void *t, size_t len)
 {
     swap_calls++;
@@ -70,7 +81,9 @@ static void one_sort(const unsigned char *keys, size_t n, size_t sz, int algo_i,
         arr = malloc(n ? n * sz : 1); scratch = malloc(sz);
         if (n) memcpy(arr, orig, n * sz); else __asan_poison_memory_region(arr, 1);
         g_arr = arr; g_n = n; g_sz = sz; g_scratch = scratch;
-        SHIM_CALL(ab, cstl_raw_array_sort(arr, n, sz, cmp_key, &cmp_calls, use_chk_swap ? chk_swap : cstl_swap, scratch, (cstl_sort_algorithm_t)ALGOS[algo_i]));
+        if (use_chk_swap == 2) __asan_poison_memory_region(scratch, sz);       /* elements move only through the caller's swap function: the scratch space is the callback's business */
+        SHIM_CALL(ab, cstl_raw_array_sort(arr, n, sz, cmp_key, &cmp_calls, use_chk_swap == 2 ? own_swap : use_chk_swap ? chk_swap : cstl_swap, scratch, (cstl_sort_algorithm_t)ALGOS[algo_i]));
+        if (use_chk_swap == 2) __asan_unpoison_memory_region(scratch, sz);
     } else {
         cstl_vector_init(&v, sz);
         cstl_vector_resize(&v, n);
@@ -175,6 +188,32 @@ static void searches(const unsigned char *keys, size_t n, size_t sz, int sorted)
     SHIM_CALL(ab, cstl_vector_reverse(&v));
     if (ab) fail("vector reverse aborted");
     for (i = 0; i < n && !failed; i++) if (memcmp((unsigned char *)cstl_vector_data(&v) + i * sz, buf + (n - 1 - i) * sz, sz)) fail("vector reverse: element %zu is not the mirror image", i);
+    if (!failed) {
+        /* vector search/find must look at the first size() elements only: give the vector slack capacity and fill the dead slots with
+         * keys that are smaller and larger than anything in the array */
+        static volatile ssize_t r; int pr2, variant; cstl_vector_t w;
+        for (variant = 0; variant < 2 && !failed; variant++) {
+            size_t slack;
+            cstl_vector_init(&w, sz); cstl_vector_resize(&w, n + 3);
+            if (n) memcpy(cstl_vector_data(&w), buf, n * sz);
+            for (slack = n; slack < n + 3; slack++) mk_elem((unsigned char *)cstl_vector_data(&w) + slack * sz, sz, variant ? 8u : 0u, 777);
+            cstl_vector_resize(&w, n);                                   /* capacity stays n+3, the stale elements stay behind the end */
+            for (pr2 = 0; pr2 <= 8 && !failed; pr2++) {
+                ssize_t first = -1; int exists = 0;
+                mk_elem(probe, sz, (unsigned)pr2, 999);
+                for (i = 0; i < n; i++) if (keys[i] == pr2) { exists = 1; if (first < 0) first = (ssize_t)i; }
+                cases++; cmp_calls = 0; cmp_limit = 64 + 4 * n;
+                g_arr = cstl_vector_data(&w); g_n = n;
+                SHIM_CALL(ab, r = cstl_vector_find(&w, probe, cmp_key, &cmp_calls));
+                if (ab || r != first) fail("vector find(probe %d) on a vector with slack capacity returned %zd, the first equal element is at %zd", pr2, (ssize_t)r, first);
+                if (sorted) {
+                    SHIM_CALL(ab, r = cstl_vector_search(&w, probe, cmp_key, &cmp_calls));
+                    if (ab || (exists ? (r < 0 || (size_t)r >= n || keys[r] != pr2) : r != -1)) fail("vector search(probe %d) on a vector with slack capacity returned %zd (size %zu) but an equal element %s", pr2, (ssize_t)r, n, exists ? "exists" : "does not exist");
+                }
+            }
+            cstl_vector_clear(&w);
+        }
+    }
     if (sorted && n && !failed) {
         static volatile ssize_t r;
         SHIM_CALL(ab, cstl_vector_reverse(&v));
@@ -203,7 +242,17 @@ static void do_array(const unsigned char *keys, size_t n, size_t sz, int randlen
             describe_case("sort", keys, n, sz, a, path, path != 1);
             one_sort(keys, n, sz, a, path, path != 1);
             record();
+            if (path == 0 && a < 4) { describe_case("sort", keys, n, sz, a, 0, 2); one_sort(keys, n, sz, a, 0, 2); record(); }
         }
+    }
+    if (n >= 1) {
+        /* rand() may return anything up to RAND_MAX: streams at the top of the range (the exhaustive enumeration below uses the values 0..n-1) */
+        static const int top[4][8] = { { RAND_MAX, RAND_MAX, RAND_MAX, RAND_MAX, RAND_MAX, RAND_MAX, RAND_MAX, RAND_MAX }, { RAND_MAX, 0, RAND_MAX, 0, RAND_MAX, 0, RAND_MAX, 0 },
+                                       { 0, RAND_MAX, 0, RAND_MAX, 0, RAND_MAX, 0, RAND_MAX }, { RAND_MAX - 1, RAND_MAX / 2, RAND_MAX - 1, RAND_MAX / 2 + 1, RAND_MAX, 1, RAND_MAX - 2, 3 } };
+        int s3;
+        rnd_cap = 3 * (int)n + 8;
+        for (s3 = 0; s3 < 4 && nviol < 6; s3++) { memcpy(rnd_choice, top[s3], sizeof top[s3]); rnd_nchoice = 8; describe_case("sort", keys, n, sz, 1, 0, 1); one_sort(keys, n, sz, 1, 0, 1); record(); }
+        rnd_nchoice = 0; rnd_cap = 1 << 30;
     }
     if ((int)n <= randlen) { sort_all_pivots(keys, n, sz, 0); if (n >= 3) sort_all_pivots(keys, n, sz, 1); }
     else {
@@ -247,6 +296,7 @@ static char *prog_buf;
 #include <sys/mman.h>
 static void progress_open(const char *path) { int fd = open(path, O_RDWR | O_CREAT | O_TRUNC, 0644); if (fd < 0 || ftruncate(fd, 4096) != 0) return; prog_buf = mmap(NULL, 4096, PROT_READ | PROT_WRITE, MAP_SHARED, fd, 0); if (prog_buf == MAP_FAILED) prog_buf = NULL; close(fd); }
 
+static void do_array(const unsigned char *keys, size_t n, size_t sz, int randlen);
 static int replay_case(const char *rp)
 {
     /* what:algo:size:path:chk:letters:rand  (large inputs: large:algo:size:n:shape -- re-run through large_inputs) */
@@ -256,7 +306,8 @@ static int replay_case(const char *rp)
     n = strlen(letters); for (i = 0; i < n; i++) keys[i] = (unsigned char)(letters[i] - '0');
     rnd_nchoice = 0; { char *p = rnd; while (*p) { char *e; long x = strtol(p, &e, 10); if (e == p) break; rnd_choice[rnd_nchoice++] = (int)x; p = *e == ',' ? e + 1 : e; } }
     printf("case %s\n", rp);
-    if (!strcmp(what, "sort")) { snprintf(last_case, sizeof last_case, "%s", rp); one_sort(keys, n, sz, a, path, chk); record(); }
+    if (!strcmp(what, "array")) do_array(keys, n, sz, 5);           /* the whole battery for this array (used when the exploring process died inside it) */
+    else if (!strcmp(what, "sort")) { snprintf(last_case, sizeof last_case, "%s", rp); one_sort(keys, n, sz, a, path, chk); record(); }
     else { int sorted = 1; for (i = 0; i + 1 < n; i++) if (keys[i] > keys[i + 1]) sorted = 0; searches(keys, n, sz, sorted); }
     if (nviol) { printf("VIOLATED: %s\n", violmsg[0]); return 1; }
     printf("no violation\n");
